@@ -137,5 +137,23 @@ Definition energy_delta (T S : Z) (l : ledger) (o : op) : Z :=
 Fixpoint energy_delta_ops (T S : Z) (l : ledger) (os : list op) : Z :=
   match os with [] => 0 | o :: t => energy_delta T S l o + energy_delta_ops T S (apply_op T S l o) t end.
 
+(* the primitives a clause (the EVM with the runtime's hooks and the energy builtin) can perform; energy add / sub and reward
+   distribution are the transaction wrapper's and the block's own operations *)
+Definition clause_kind (o : op) : bool :=
+  match o with OTransfer _ _ _ | OEnergyMove _ _ _ | OSuicide _ _ => true | _ => false end.
+
+(* what self-destructs whose beneficiary is the contract itself destroy along an op list: (VET, VTHO at block time), each
+   measured on the ledger at the moment of the self-destruct *)
+Fixpoint burned (T S : Z) (l : ledger) (os : list op) : Z * Z :=
+  match os with
+  | [] => (0, 0)
+  | o :: t =>
+    let '(b, e) := burned T S (apply_op T S l o) t in
+    match o with
+    | OSuicide c r => if c =? r then (a_bal (l_acc l c) + b, energy_at T S (l_acc l c) + e) else (b, e)
+    | _ => (b, e)
+    end
+  end.
+
 (* executable projection used by the correspondence: (balance, energy at T) of an address *)
 Definition view (T S : Z) (l : ledger) (a : Z) : Z * Z := (a_bal (l_acc l a), get_energy T S l a).
